@@ -14,6 +14,7 @@ func (c RawConfiguration) Multicast(ctx context.Context, d QuorumCallData, opts 
 	o := getCallOptions(E_Multicast, opts)
 	md := &ordering.Metadata{MessageID: c.getMsgID(), Method: d.Method}
 	sentMsgs := 0
+	vEmit("CallStart", 0, md.MessageID, "kind", "mcast", "size", len(c), "nosendwait", o.noSendWaiting, "ctx", ctx)
 
 	var replyChan chan response
 	if !o.noSendWaiting {
@@ -24,15 +25,20 @@ func (c RawConfiguration) Multicast(ctx context.Context, d QuorumCallData, opts 
 		if d.PerNodeArgFn != nil {
 			msg = d.PerNodeArgFn(d.Message, n.id)
 			if !msg.ProtoReflect().IsValid() {
+				vEmit("CallSkip", n.id, md.MessageID)
 				continue // don't send if no msg
 			}
 		}
+		vGate("CallEnqWait", n.id, md.MessageID)
 		n.channel.enqueue(request{ctx: ctx, msg: &Message{Metadata: md, Message: msg}, opts: o}, replyChan, false)
+		vEmit("CallEnq", n.id, md.MessageID)
 		sentMsgs++
 	}
+	vEmit("CallIssued", 0, md.MessageID, "expected", sentMsgs)
 
 	// if noSendWaiting is set, we will not wait for confirmation from the channel before returning.
 	if o.noSendWaiting {
+		vEmit("CallEnd", 0, md.MessageID, "out", "nowait")
 		return
 	}
 
@@ -40,5 +46,7 @@ func (c RawConfiguration) Multicast(ctx context.Context, d QuorumCallData, opts 
 	// wait until the message has been sent
 	for ; sentMsgs > 0; sentMsgs-- {
 		<-replyChan
+		vEmit("CallConfirm", 0, md.MessageID, "left", sentMsgs-1)
 	}
+	vEmit("CallEnd", 0, md.MessageID, "out", "sent")
 }
